@@ -240,16 +240,140 @@ pub fn run_mixed(ops: &[(Op, Fault)], variant: u64) -> Option<String> {
     None
 }
 
-pub const SHAPE_NAMES: [&str; 6] = ["OneOfThree", "OneOfTwo", "TwoOfThree", "ThreeOfFive", "Documented", "Mixed"];
+/// A remote target (as for a foreign crate's type): the proxy lists only some of its fields.
+#[derive(Clone, Debug, Default, PartialEq)]
+pub struct RemoteTarget {
+    pub before: u32,
+    pub x: f32,
+    pub between: f32,
+    pub size: u16,
+    pub after: i64,
+}
+
+#[derive(Animate)]
+#[animate(remote = "RemoteTarget")]
+#[allow(dead_code)]
+pub struct RemoteProxy {
+    x: f32,
+    size: u16,
+}
+
+pub fn run_remote(ops: &[(Op, Fault)], variant: u64) -> Option<String> {
+    let initial = RemoteTarget { before: 5, x: 1.0, between: 2.5, size: 10, after: -9 };
+    let foreign = RemoteTarget { before: 500, x: 40.0, between: -2.5, size: 700, after: 9000 };
+    let check = |v: &RemoteTarget, what: &str| -> Option<String> {
+        if v.before != initial.before || v.between != initial.between || v.after != initial.after {
+            Some(format!(
+                "remote proxy: {what} changed a field the proxy does not list: before {} between {} after {}",
+                v.before, v.between, v.after
+            ))
+        } else {
+            None
+        }
+    };
+    let tl = || {
+        RemoteProxy::timeline()
+            .duration_seconds(1.25)
+            .delay_seconds(if variant & 1 == 1 { 0.5 } else { 0.0 })
+            .reverse(variant & 2 == 2)
+            .keyframe(RemoteProxy::keyframe_from(&foreign, 0.0))
+            .keyframe(RemoteProxy::keyframe(1.0).x(-3.0).size(65000))
+    };
+    let bare = TimelineBuilder::build(tl());
+    for t in [0.0f32, 0.25, 0.75, 1.25, 1.75, 9.0] {
+        let mut target = initial.clone();
+        bare.update(&mut target, t);
+        if let Some(d) = check(&target, &format!("Timeline::update at t={t}")) {
+            return Some(d);
+        }
+    }
+    let mut anim = StateAnimatorBuilder::new()
+        .from_state(Sh::C)
+        .from_values(initial.clone())
+        .on(Sh::A, tl())
+        .build();
+    for (i, (op, _)) in ops.iter().enumerate() {
+        match op {
+            Op::Advance(dt) => anim.advance(*dt),
+            Op::SetState(s) => anim.set_state(&SH[*s as usize % 3]),
+        }
+        if let Some(d) = check(anim.current_values(), &format!("operation {i} ({op:?})")) {
+            return Some(d);
+        }
+    }
+    None
+}
+
+/// The smallest shape: a single field (no marker, so it is the animated one) - and next to it a
+/// struct with one marked field out of one.
+#[derive(Animate, Clone, Debug, Default, PartialEq)]
+pub struct Lone {
+    pub v: f32,
+}
+
+#[derive(Animate, Clone, Debug, Default, PartialEq)]
+pub struct LoneMarked {
+    #[animate]
+    pub v: i16,
+}
+
+pub fn run_lone(ops: &[(Op, Fault)], variant: u64) -> Option<String> {
+    let mut a = StateAnimatorBuilder::new()
+        .from_state(Sh::C)
+        .from_values(Lone { v: 2.0 })
+        .on(Sh::A, Lone::timeline().duration_seconds(1.0).keyframe(Lone::keyframe(1.0).v(10.0)))
+        .build();
+    let mut b = StateAnimatorBuilder::new()
+        .from_state(Sh::C)
+        .from_values(LoneMarked { v: 2 })
+        .on(
+            Sh::A,
+            LoneMarked::timeline()
+                .duration_seconds(1.0)
+                .reverse(variant & 1 == 1)
+                .keyframe(LoneMarked::keyframe_from(&LoneMarked { v: 300 }, 0.5)),
+        )
+        .build();
+    for (i, (op, _)) in ops.iter().enumerate() {
+        match op {
+            Op::Advance(dt) => {
+                a.advance(*dt);
+                b.advance(*dt);
+            }
+            Op::SetState(s) => {
+                a.set_state(&SH[*s as usize % 3]);
+                b.set_state(&SH[*s as usize % 3]);
+            }
+        }
+        // while un-animated (state C or B) nothing may move, not even the only field there is
+        if *a.current_state() != Sh::A {
+            let (va, vb) = (a.current_values().v, b.current_values().v);
+            a.advance(0.0);
+            b.advance(0.0);
+            if a.current_values().v != va || b.current_values().v != vb {
+                return Some(format!(
+                    "single-field shapes: operation {i}: values moved in an un-animated state"
+                ));
+            }
+        }
+    }
+    None
+}
+
+pub const SHAPE_NAMES: [&str; 8] = [
+    "OneOfThree", "OneOfTwo", "TwoOfThree", "ThreeOfFive", "Documented", "Mixed", "RemoteProxy", "Lone",
+];
 
 pub fn run_shape(which: usize, ops: &[(Op, Fault)], variant: u64) -> Option<String> {
-    match which % 6 {
+    match which % 8 {
         0 => run_one_of_three(ops, variant),
         1 => run_one_of_two(ops, variant),
         2 => run_two_of_three(ops, variant),
         3 => run_three_of_five(ops, variant),
         4 => run_documented(ops, variant),
-        _ => run_mixed(ops, variant),
+        5 => run_mixed(ops, variant),
+        6 => run_remote(ops, variant),
+        _ => run_lone(ops, variant),
     }
 }
 
